@@ -20,8 +20,13 @@ def run(ctx: Ctx):
     rows = T.table(ctx, PART, cones, G, slacks)
     T.bind_refeval(ctx, PART, rows)
     calls, bad = T.replay(ctx, PART, rows, ctx.seed, every=(2 if thorough else 6))
-    rows3 = T.table3(ctx, G=1)
+    rows3 = T.table3(ctx, G=1) + (T.table3c(ctx, G=1) if PART == "dom" else [])          # 3-D: orthant and general integer cones (acute, obtuse, 4-facet)
     c3, bad3 = T.replay3(ctx, PART, rows3, ctx.seed, every=(1 if thorough else 5))
+    if PART == "cov":
+        T.bind_refeval3(ctx, PART, rows3)
+        c3d, bad3d = T.eval3d(ctx, PART, ctx.seed, 4000 if thorough else 800)      # general 3-D cones: evaluator-based (bound on the orthant table)
+        c3 += c3d
+        bad3 += bad3d
     erows = T.elltable(ctx, cones if thorough else ["orth", "obtuse", "acute", "k3", "pyobt"],
                        T.SHAPES_T if thorough else T.SHAPES_Q, G=(6 if thorough else 5))
     T.bind_refeval_ell(ctx, erows)
